@@ -21,6 +21,14 @@ pub type Log = Arc<Mutex<Vec<String>>>;
 pub fn new_log() -> Log { Arc::new(Mutex::new(vec![])) }
 pub fn push(log: &Log, s: String) { log.lock().unwrap().push(s); }
 
+/// C18 twin runs: everything the store and the user-validation mock are handed (request-derived parts only: ids
+/// of credentials created during the run are random and are written as `new`), and a digest of each result
+pub static DETAIL_ON: std::sync::atomic::AtomicBool = std::sync::atomic::AtomicBool::new(false);
+pub static DETAIL: Mutex<Vec<String>> = Mutex::new(Vec::new());
+pub static DETAIL_KNOWN_IDS: Mutex<Vec<Vec<u8>>> = Mutex::new(Vec::new());
+pub fn detail(s: impl FnOnce() -> String) { if DETAIL_ON.load(std::sync::atomic::Ordering::Relaxed) { DETAIL.lock().unwrap().push(s()); } }
+pub fn detail_id(id: &[u8]) -> String { if DETAIL_KNOWN_IDS.lock().unwrap().iter().any(|k| k == id) { id.iter().map(|b| format!("{:02x}", b)).collect() } else { "new".into() } }
+
 fn noop_raw() -> RawWaker {
     fn clone(_: *const ()) -> RawWaker { noop_raw() }
     fn noop(_: *const ()) {}
@@ -134,6 +142,7 @@ impl<S: CredentialStore<PasskeyItem = Passkey> + Send + Sync> CredentialStore fo
     type PasskeyItem = Passkey;
     async fn find_credentials(&self, ids: Option<&[PublicKeyCredentialDescriptor]>, rp_id: &str) -> Result<Vec<Passkey>, StatusCode> {
         if self.yields { yield_once().await; }
+        detail(|| format!("find ids={:?} rp={:?}", ids.map(|l| l.iter().map(|d| (d.ty, detail_id(&d.id), d.transports.clone())).collect::<Vec<_>>()), rp_id));
         let head = format!("find:{}:{}", ids_str(ids), hexs(rp_id.as_bytes()));
         if let Some(e) = self.next_fault() { push(&self.log, format!("{}:err:{}", head, e)); return Err(StatusCode::from(e)); }
         let r = self.inner.find_credentials(ids, rp_id).await;
@@ -146,6 +155,8 @@ impl<S: CredentialStore<PasskeyItem = Passkey> + Send + Sync> CredentialStore fo
         if self.yields { yield_once().await; }
         let head = format!("save:{}:{}:{}:{}:{}:{}{}{}", hexs(&cred.credential_id), hexs(cred.rp_id.as_bytes()), opt_hex(cred.user_handle.as_deref().map(|v| &v[..])),
             opt_num(cred.counter), hexs(&u.id), o.rk as u8, o.up as u8, o.uv as u8);
+        detail(|| format!("save rp={:?} uh={:?} ctr={:?} id_len={} hmac={} user={:?} rpent={:?} opts={:?}", cred.rp_id, cred.user_handle, cred.counter, cred.credential_id.len(),
+            cred.extensions.hmac_secret.as_ref().map(|h| h.cred_without_uv.is_some()).map(|b| b.to_string()).unwrap_or("none".into()), u, r, (o.rk, o.up, o.uv)));
         *self.last_saved.lock().unwrap() = Some(cred.clone());
         if r.id != cred.rp_id { push(&self.log, format!("rp-entity-differs:{}", hexs(r.id.as_bytes()))); }
         if let Some(e) = self.next_fault() { push(&self.log, format!("{}:{}", head, e)); return Err(StatusCode::from(e)); }
@@ -154,6 +165,7 @@ impl<S: CredentialStore<PasskeyItem = Passkey> + Send + Sync> CredentialStore fo
     }
     async fn update_credential(&mut self, cred: Passkey) -> Result<(), StatusCode> {
         if self.yields { yield_once().await; }
+        detail(|| format!("update id={} rp={:?} uh={:?} ctr={:?}", detail_id(&cred.credential_id), cred.rp_id, cred.user_handle, cred.counter));
         let head = format!("update:{}:{}", hexs(&cred.credential_id), opt_num(cred.counter));
         if let Some(e) = self.next_fault() { push(&self.log, format!("{}:{}", head, e)); return Err(StatusCode::from(e)); }
         match self.inner.update_credential(cred).await {
